@@ -1,7 +1,7 @@
 //! C08 Simplifying the factor set never changes the result.
 
 use super::{flow_models, strs, FlowSpec};
-use crate::cmp::{cmp_flat, show};
+use crate::cmp::show;
 use crate::core::*;
 use crate::model::*;
 use crate::subj;
@@ -69,7 +69,7 @@ impl StateCheck for C08 {
                         let (fa, fb) = (result_flat(&a), result_flat(&b));
                         let mag = subj::magnitude(&comps, f);
                         let ratios = crate::cmp::ratios_ok(&a, mag) && crate::cmp::ratios_ok(&b, mag);
-                        let d = cmp_flat(&fa, &fb, subj::tol(mag) * 0.05, 2e-6, &|p| p.starts_with("rer") && !ratios, &|_, x| x);
+                        let d = crate::cmp::cmp_flat_m(&fa, &fb, subj::tol(mag) * 0.05, 2e-6, mag, mag, &|p| p.starts_with("rer") && !ratios, &|_, x| x);
                         if !d.is_empty() {
                             let (x, y) = show(&d);
                             out.viol("same_results", &[], &cfg, format!("simplified: {y}"), format!("full: {x}"));
